@@ -48,8 +48,11 @@ BENIGN = Profile()
 
 
 def corrupt_bytes(data, spec):
-    """spec = [mode, pos, nbits, key]; burst of 1..32 bits whose first and last
-    bit are flipped and interior bits taken from key; or truncation."""
+    """spec = [mode, pos, nbits, key]: one burst of 1..32 bits starting at bit
+    `pos`.  mode "burst": first and last bit flipped, interior bits flipped per
+    key; "zero"/"ones": the window forced to 0s / 1s; "rand": the window replaced
+    by key bits; "trunc": the datagram cut at byte pos.  (A window that happens
+    to leave the data unchanged is reported by the caller as not corrupted.)"""
     mode, pos, nbits, key = spec
     if mode == "trunc":
         return data[: max(0, pos % (len(data) + 1))]
@@ -60,13 +63,20 @@ def corrupt_bytes(data, spec):
     start = pos % (total - nbits + 1)
     buf = bytearray(data)
     for i in range(nbits):
-        if i == 0 or i == nbits - 1:
-            flip = 1
+        bit = start + i
+        mask = 0x80 >> (bit & 7)
+        if mode == "zero":
+            buf[bit >> 3] &= ~mask & 0xFF
+        elif mode == "ones":
+            buf[bit >> 3] |= mask
+        elif mode == "rand":
+            if (key >> i) & 1:
+                buf[bit >> 3] |= mask
+            else:
+                buf[bit >> 3] &= ~mask & 0xFF
         else:
-            flip = (key >> i) & 1
-        if flip:
-            bit = start + i
-            buf[bit >> 3] ^= 0x80 >> (bit & 7)
+            if i == 0 or i == nbits - 1 or (key >> i) & 1:
+                buf[bit >> 3] ^= mask
     return bytes(buf)
 
 
@@ -146,11 +156,19 @@ class Link:
                 d2 = p.base + rng.random() * max(p.jitter, p.reorder_max * (p.reorder > 0), 0.001)
                 return [DUP, d_us, int(d2 * 1e6)]
             if p.corrupt and rng.random() < p.corrupt:
-                if rng.random() < 0.15:
+                if rng.random() < 0.1:
                     spec = ["trunc", rng.randrange(0, n + 1), 0, 0]
                 else:
-                    spec = ["burst", rng.randrange(0, max(1, n * 8)), rng.randint(1, 32),
-                            rng.getrandbits(32)]
+                    mode = ("burst", "burst", "zero", "ones", "rand")[rng.randrange(5)]
+                    nbits = 32 if rng.random() < 0.3 else rng.randint(1, 32)
+                    if rng.random() < 0.5:
+                        # field-aligned: whole 32-bit words, biased to the packet and chunk headers
+                        words = max(1, n // 4)
+                        w = rng.randrange(min(words, 8)) if rng.random() < 0.5 else rng.randrange(words)
+                        pos = w * 32
+                    else:
+                        pos = rng.randrange(0, max(1, n * 8))
+                    spec = [mode, pos, nbits, rng.getrandbits(32)]
                 return [CORRUPT, d_us, spec]
             return [DELIVER, d_us, None]
 
@@ -165,11 +183,14 @@ class Link:
         if when > now + p.base + 1e-9 + (p.jitter or 0):
             self.stats["reorder_delay"] += 1
         if act == CORRUPT:
-            self.stats["corrupt"] += 1
             bad = corrupt_bytes(data, extra)
+            changed = bad != data
+            self.stats["corrupt" if changed else "corrupt_noop"] += 1
+            if changed:
+                self.stats["corrupt_" + str(extra[0])] += 1
             if self.tap:
                 self.tap("send", data, {"act": "corrupt", "bad": bad})
-            self._schedule(bad, when, fifo=p.fifo, corrupted=(bad != data))
+            self._schedule(bad, when, fifo=p.fifo, corrupted=(str(extra[0]) if changed else False))
             return
         if self.tap:
             self.tap("send", data, {"act": "dup" if act == DUP else "deliver"})
